@@ -13,7 +13,8 @@ use std::time::Instant;
 
 fn menu() -> Vec<Sig> {
     vec![
-        Sig::inp("A", 4, 9),
+        // defaults that do not fit the width: an omitted input is at its default, as given
+        Sig::inp("A", 4, 25),
         // inputs of different widths: a value is reduced by the width of the signal its column is bound to
         Sig::inp_z("B", 2),
         Sig::bidir("D", 4, V::Num(6)),
@@ -24,7 +25,7 @@ fn menu() -> Vec<Sig> {
         Sig::inp("d", 1, 1),
         Sig::bidir("A", 8, V::Num(2)),
         // a name that has another bidirectional name as a prefix
-        Sig::bidir("DQ", 4, V::Num(3)),
+        Sig::bidir("DQ", 4, V::Num(-3)),
     ]
 }
 
